@@ -370,8 +370,9 @@ fn gen_addr(rng: &mut Rng, ll: &Option<Ieee802154Address>, dst: bool) -> [u8; 16
         8..=10 => a.copy_from_slice(&r),
         // multicast forms (dst only)
         11 => {
+            // ff02::00XX is the 8-bit form; the same shape with any other scope nibble is not
             a[0] = 0xff;
-            a[1] = 0x02;
+            a[1] = if rng.chance(1, 2) { 0x02 } else { r[1] & 0x0f };
             a[15] = r[15];
         }
         12 => {
@@ -869,6 +870,14 @@ fn mk_pair(medium: Medium, cfg: &E2eCfg) -> Pair {
     b.sockets.get_mut::<icmp::Socket>(b.h_icmp).bind(icmp::Endpoint::Ident(cfg.ident ^ 0xffff)).unwrap();
     if cfg.tcp {
         b.sockets.get_mut::<tcp::Socket>(b.h_tcp).listen(PORT_TCP).unwrap();
+    }
+    if let Some(m) = cfg.dst_m {
+        if m != Ipv6Address::new(0xff02, 0, 0, 0, 0, 0, 0, 1) {
+            // B listens to the group (the MLD report is not part of the observed traffic)
+            let _ = b.iface.join_multicast_group(m);
+            let _ = pump(&mut b);
+            b.take_raw();
+        }
     }
     let dst_b = if let Some(m) = cfg.dst_m {
         m
@@ -1609,30 +1618,6 @@ fn gen_e2e_case_x(rng: &mut Rng, id: String, tier: &str, with_eburst: bool) -> C
         }
     };
     let (lla, llb) = (mk_ll(rng, ea, 1), mk_ll(rng, eb, 2));
-    // second addresses: none / same global prefix / arbitrary
-    let class = rng.below(4);
-    let mk_x = |rng: &mut Rng, class: u64, w: u8| -> Option<Ipv6Address> {
-        let r = rng.bytes(16);
-        let mut a = [0u8; 16];
-        match class {
-            0 => return None,
-            1 | 2 => {
-                a.copy_from_slice(&r);
-                a[..8].copy_from_slice(&[0x20, 0x01, 0x0d, 0xb8, 0, 0, 0, 1]);
-                if class == 2 {
-                    // interface identifier derived from nothing in particular but with zero runs
-                    a[8..14].copy_from_slice(&[0, 0, 0, 0xff, 0xfe, 0]);
-                }
-            }
-            _ => {
-                a.copy_from_slice(&r);
-                a[0] = 0x20 | (r[0] & 0x1f); // global unicast 2000::/3
-            }
-        }
-        a[15] = w;
-        Some(Ipv6Address::from_octets(a))
-    };
-    let (xa, mut xb) = (mk_x(rng, class, 1), mk_x(rng, class, 2));
     // address contexts: sometimes B's second address is context prefix + EUI-64 of its link-layer address
     let ctx: Vec<[u8; 8]> = match rng.below(4) {
         0 | 1 => vec![],
@@ -1645,6 +1630,85 @@ fn gen_e2e_case_x(rng: &mut Rng, id: String, tier: &str, with_eburst: bool) -> C
             vec![a, [0x20, 0x01, 0x0d, 0xb8, 0, 0, 0, 1]]
         }
     };
+    // second addresses: none / same global prefix / arbitrary / link-local SCOPE outside fe80::/64 /
+    // an interface identifier one bit away from the one derived from the link-layer address /
+    // a prefix one bit away from an address context
+    let class = rng.below(8);
+    let sel = rng.next();
+    let mk_x = |rng: &mut Rng, class: u64, w: u8, ll: &Ieee802154Address| -> Option<Ipv6Address> {
+        let r = rng.bytes(16);
+        let mut a = [0u8; 16];
+        let derived: [u8; 8] = {
+            let mut d = [0u8; 8];
+            d.copy_from_slice(&ll_link_local(ll).octets()[8..]);
+            d
+        };
+        match class {
+            0 => return None,
+            1 | 2 => {
+                a.copy_from_slice(&r);
+                a[..8].copy_from_slice(&[0x20, 0x01, 0x0d, 0xb8, 0, 0, 0, 1]);
+                if class == 2 {
+                    // interface identifier derived from nothing in particular but with zero runs
+                    a[8..14].copy_from_slice(&[0, 0, 0, 0xff, 0xfe, 0]);
+                }
+            }
+            3 => {
+                a.copy_from_slice(&r);
+                a[0] = 0x20 | (r[0] & 0x1f); // global unicast 2000::/3
+            }
+            4 | 5 => {
+                // fe80::/10 but not fe80::/64: link-local scope with non-zero "subnet" bits; the IPHC
+                // link-local forms (which elide the upper 64 bits) must not be used for these
+                let pfx: [u8; 8] = match sel % 4 {
+                    0 => [0xfe, 0x80, 0, 0, 0, 0, 0, 1],
+                    1 => [0xfe, 0x9a, 0, 7, 0, 0, 0, 0],
+                    2 => [0xfe, 0xbf, 0xff, 0xff, 0xff, 0xff, 0xff, 0xff],
+                    _ => [0xfe, 0x80, 0x80, 0, 0, 0, 0, 0],
+                };
+                a[..8].copy_from_slice(&pfx);
+                match (sel >> 8) % 3 {
+                    0 => a[8..].copy_from_slice(&derived), // would be fully elided if the prefix were fe80::/64
+                    1 => a[8..].copy_from_slice(&r[8..]),
+                    _ => {
+                        a[15] = w;
+                        return Some(Ipv6Address::from_octets(a));
+                    }
+                }
+                return Some(Ipv6Address::from_octets(a));
+            }
+            6 => {
+                // the derived interface identifier with exactly one bit flipped (incl. the universal/local bit),
+                // under the link-local prefix, a global prefix or an address context
+                let pfx: [u8; 8] = match sel % 3 {
+                    0 => [0xfe, 0x80, 0, 0, 0, 0, 0, 0],
+                    1 => [0x20, 0x01, 0x0d, 0xb8, 0, 0, 0, 1],
+                    _ => ctx.first().copied().unwrap_or([0x20, 0x01, 0x0d, 0xb8, 0, 0, 0, 1]),
+                };
+                a[..8].copy_from_slice(&pfx);
+                a[8..].copy_from_slice(&derived);
+                let bit = if (sel >> 8) % 4 == 0 { 6 } else { (sel >> 16) % 64 }; // bit 6 = universal/local
+                a[8 + (bit / 8) as usize] ^= 0x80 >> (bit % 8);
+                return Some(Ipv6Address::from_octets(a));
+            }
+            _ => {
+                // a prefix that matches an address context in all but the last bit
+                let mut pfx = ctx.first().copied().unwrap_or([0x20, 0x01, 0x0d, 0xb8, 0, 0, 0, 1]);
+                pfx[7] ^= 1;
+                a[..8].copy_from_slice(&pfx);
+                if (sel >> 8) % 2 == 0 {
+                    a[8..].copy_from_slice(&derived);
+                } else {
+                    a[8..].copy_from_slice(&r[8..]);
+                    a[15] = w;
+                }
+                return Some(Ipv6Address::from_octets(a));
+            }
+        }
+        a[15] = w;
+        Some(Ipv6Address::from_octets(a))
+    };
+    let (xa, mut xb) = (mk_x(rng, class, 1, &lla), mk_x(rng, class, 2, &llb));
     if !ctx.is_empty() && xa.is_none() && !mcast && rng.chance(1, 2) {
         let mut a = [0u8; 16];
         a[..8].copy_from_slice(&ctx[0]);
@@ -1653,7 +1717,29 @@ fn gen_e2e_case_x(rng: &mut Rng, id: String, tier: &str, with_eburst: bool) -> C
     }
     let dst_x = class != 0 && rng.chance(2, 3);
     let ident = rng.next() as u16;
-    let dst_s = if mcast { "m:ff020000000000000000000000000001".to_string() } else if dst_x { "x".into() } else { "ll".into() };
+    let dst_s = if mcast {
+        if rng.chance(1, 2) {
+            "m:ff020000000000000000000000000001".to_string()
+        } else {
+            // any scope nibble, in the 8-, 32-, 48-bit compressible and the uncompressible shapes (B joins the group)
+            let r = rng.bytes(16);
+            let mut g = [0u8; 16];
+            g[0] = 0xff;
+            g[1] = rng.range(1, 15) as u8 | if rng.chance(1, 4) { 0x10 } else { 0 };
+            match rng.below(4) {
+                0 => g[15] = r[15] | 1,
+                1 => g[13..].copy_from_slice(&r[13..]),
+                2 => g[11..].copy_from_slice(&r[11..]),
+                _ => g[2..].copy_from_slice(&r[2..]),
+            }
+            g[15] |= 1;
+            format!("m:{}", hex(&g))
+        }
+    } else if dst_x {
+        "x".into()
+    } else {
+        "ll".into()
+    };
     let cfg = vec![
         ("s".to_string(), "e2e".to_string()),
         ("lla".into(), ll_show(&Some(lla))),
